@@ -128,6 +128,39 @@ def splice(gen, loops):
     return out
 
 
+def wf_functions(gen):
+    """Type invariants of the translated data types, generated from the struct definitions of the generated C:
+    wf_<S>(p) holds iff every embedded vector of *p (recursively, pointers are not followed) has size <= capacity.
+    Used by frame-only units to constrain harness inputs and the arbitrary results of callee bodies."""
+    defs = re.findall(r'^struct (\w+) \{ (.*) \};$', gen, re.M)
+    need = {}
+    code = []
+    loops = []
+    for name, body in defs:
+        fields = [f.strip() for f in body.split(';') if f.strip()]
+        conj = []
+        isvec = name.startswith('vec_') and any(re.match(r'^size_t n$', f) for f in fields)
+        if isvec:
+            conj.append('p->n <= WB_CAP_%s' % name)
+        lp = []
+        for f in fields:
+            m = re.match(r'^struct (\w+) (\w+)(?:\[(\w+)\])?$', f)
+            if not m or m.group(1) not in need:
+                continue
+            t, fld, arr = m.groups()
+            if arr:
+                lp.append('for (size_t k_ = 0; k_ < %s; k_++) { if (!wf_%s(&p->%s[k_])) return 0; }' % (arr, t, fld))
+            else:
+                conj.append('wf_%s(&p->%s)' % (t, fld))
+        if not conj and not lp:
+            continue
+        need[name] = True
+        if lp:
+            loops.append(('wf_' + name, len(lp)))
+        code.append('static inline _Bool wf_%s(const struct %s *p) { %s return %s; }' % (name, name, ' '.join(lp), ' && '.join(conj) or '1'))
+    return '\n'.join(code) + '\n', loops, need
+
+
 def loops_in(gen):
     return [(m.group(1), int(m.group(2))) for m in re.finditer(r'/\*@LOOP (\w+) (\d+)@\*/', gen)]
 
@@ -158,7 +191,12 @@ def run_unit(unit, work, tier='quick'):
         res['translated'] = sorted(cn for cn, i in tr.funcs.items() if not i.get('stub'))
         all_loops = loops_in(gen)
         res['loops'] = len(all_loops)
-        loops = unit.get('loops', {})
+        loops = dict(unit.get('loops', {}))
+        if unit.get('frame_only'):
+            # frame-only unit: every loop gets the trivially true invariant (DFCC then havocs everything the loop
+            # may write and checks one arbitrary iteration: a sound over-approximation for "no write outside the frame")
+            for l_ in all_loops:
+                loops.setdefault(l_, dict(contract='__CPROVER_loop_invariant(1)'))
         nocontract = [l for l in all_loops if l not in loops]
         if unit.get('_mutate'):
             pat, rep = unit['_mutate']
@@ -185,6 +223,33 @@ def run_unit(unit, work, tier='quick'):
             if len(ms) != 1:
                 raise Undecided('ghost anchor %r matches %d times in the generated code' % (pat, len(ms)))
             gen2 = gen2[:ms[0].start()] + ghost + '\n' + gen2[ms[0].start():]
+        if unit.get('frame_only'):
+            # callees that are not translated (stubs: virtual model functions, large geometry routines) get a body that
+            # may raise the exception flag, returns an arbitrary value and writes nothing else - the assumed frame of
+            # every callee, listed in the evidence.  (A call to a body-less function would cut the path under DFCC.)
+            wfcode, wfloops, wfneed = wf_functions(gen2)
+            # after the type definitions and vector shims, before the first prototype
+            lines_ = gen2.split('\n')
+            last_ = max(i_ for i_, l_ in enumerate(lines_) if re.match(r'^(struct \w+ \{|WB_VEC_SHIMS|enum \w+ \{|#endif)', l_))
+            gen2 = '\n'.join(lines_[:last_ + 1]) + '\n/* type invariants (vector sizes within capacity) */\n' + wfcode + '\n'.join(lines_[last_ + 1:])
+            res['wf_loops'] = wfloops
+            bodies = []
+            for st in res['stubs']:
+                if st in unit.get('replace', []):
+                    continue
+                mm = re.search(r'^([^\n;{}]*?\b%s\(([^;{}]*)\));\s*$' % re.escape(st), gen2, re.M)
+                if not mm:
+                    raise Undecided('frame unit: no prototype found for stub %s' % st)
+                proto = mm.group(1)
+                rett = proto[:proto.index(st)].strip()
+                throw = '' if st in unit.get('nothrow', []) else '_Bool t_; if (t_) wb_thrown = 1; '
+                ret = '' if rett == 'void' else '%s r_; return r_; ' % rett
+                mret = re.match(r'^struct (\w+)$', rett)
+                if mret and mret.group(1) in wfneed:
+                    ret = '%s r_; __CPROVER_assume(wf_%s(&r_)); return r_; ' % (rett, mret.group(1))
+                bodies.append('%s { %s%s}' % (proto, throw, ret))
+            gen2 += '\n/* frame unit: assumed callee frames (write nothing but the exception flag) */\n' + '\n'.join(bodies) + '\n'
+            res['assumed_callee_frames'] = [st for st in res['stubs'] if st not in unit.get('replace', [])]
         with open(os.path.join(d, 'gen.c'), 'w') as f:
             f.write(gen2)
         csrc = os.path.join(d, 'main.c')
@@ -214,6 +279,8 @@ def run_unit(unit, work, tier='quick'):
         res['defines'] = dd
         defs = ['-D%s=%s' % kv for kv in dd.items()]
         defs.append('-DUNIT_%s' % re.sub(r'\W', '_', name))
+        if unit.get('frame_only'):
+            defs.append('-DWB_FRAME_ONLY')
         rc, out, err, _ = sh(['goto-cc', '-I' + HERE, '-I' + d, '-I' + os.path.join(VERIF, 'contracts')] + defs +
                              ['-Werror=implicit-function-declaration', '--function', harness, csrc, '-o', os.path.join(d, 'a.gb')], log=log)
         if rc != 0:
@@ -222,6 +289,12 @@ def run_unit(unit, work, tier='quick'):
             rc, out, err, _ = sh(['goto-instrument', '--no-malloc-may-fail', '--add-library', os.path.join(d, 'a.gb'), os.path.join(d, 'a.gb')], log=log, timeout=120)
             if rc != 0:
                 raise Undecided('goto-instrument --add-library failed: ' + (err or out)[-600:])
+        if res.get('wf_loops'):
+            bound_ = 2 + max([int(v_) for v_ in dd.values() if str(v_).isdigit()] + [3])
+            us = ','.join('%s.%d:%d' % (fn_, k_, bound_) for fn_, n_ in res['wf_loops'] for k_ in range(n_))
+            rc, out, err, _ = sh(['goto-instrument', '--unwindset', us, '--unwinding-assertions', os.path.join(d, 'a.gb'), os.path.join(d, 'a.gb')], log=log, timeout=120)
+            if rc != 0:
+                raise Undecided('goto-instrument --unwindset (type invariants) failed: ' + (err or out)[-600:])
         if nocontract and 'unwind_complete' in unit:
             # DFCC needs loops without contract to be unwound before instrumentation
             us = ','.join('%s.%d:%d' % (fn_, k_ - 1, unit['unwind_complete']) for fn_, k_ in nocontract)
@@ -257,7 +330,13 @@ def run_unit(unit, work, tier='quick'):
         if rc != 0:
             raise Undecided('goto-instrument failed: ' + (err or out)[-1200:])
         timeout = unit.get('timeout_thorough', unit.get('timeout', 300)) if tier == 'thorough' else unit.get('timeout', 300)
-        base = ['cbmc', os.path.join(d, 'b.gb')] + (['--no-malloc-may-fail', '--no-standard-checks'] if unit.get('no_default_checks') else CBMC_FLAGS) + unit.get('checks', []) + ['--json-ui', '--trace']
+        if unit.get('frame_only'):
+            # the unconstrained harness makes every index assertion fail: no traces (they dominate the run time), no standard checks
+            base = ['cbmc', os.path.join(d, 'b.gb'), '--no-malloc-may-fail', '--no-standard-checks', '--json-ui']
+            res['abstraction'] = 'frame-only: loops under the trivial invariant (havoc + one arbitrary iteration), callees ' \
+                                 'replaced by arbitrary-result bodies, inputs unconstrained; only assigns-clause obligations are considered'
+        else:
+            base = ['cbmc', os.path.join(d, 'b.gb')] + (['--no-malloc-may-fail', '--no-standard-checks'] if unit.get('no_default_checks') else CBMC_FLAGS) + unit.get('checks', []) + ['--json-ui', '--trace']
         if nocontract:
             # loops without contract only exist in units that declare an unwinding bound (bounded stand-in)
             if 'unwind_complete' in unit:
@@ -309,6 +388,11 @@ def parse_cbmc(out, res, unit):
         raise Undecided('no result from cbmc: ' + alltext[-800:])
     res['obligations'] = len(results)
     exp_fail = [re.compile(x) for x in unit.get('expect_fail', [])]
+    for r in results:
+        if 'undefined function should be unreachable' in r.get('description', '') and r.get('status') != 'SUCCESS':
+            raise Undecided('a call to a body-less function is reachable (DFCC cuts the path there): %s' % r.get('property'))
+    if unit.get('frame_only') and not unit.get('only'):
+        unit = dict(unit, only=r'is assignable|assigns clause')
     only = re.compile(unit['only']) if unit.get('only') else None
     loopobl_all = len([1 for r in results if 'loop invariant' in r.get('description', '') or 'loop_invariant' in r.get('property', '') or 'decreases' in r.get('description', '')])
     if only is not None:
